@@ -104,12 +104,15 @@ CHECKS = {
              "returns has passed the regenerated Compose validators), C07_loaded_images_are_valid / C07_loaded_images_are_writable "
              "(every image of a loaded manifest passes the Image validators, hence the manifest can be written), "
              "C07_loaded_composeinfo_is_valid (compose, release, base product and EVERY variant of the re-read forest passed its "
-             "validators in the context of its parent). Tie: valid current-version documents of the five JSON "
+             "validators in the context of its parent), C07_loaded_treeinfo_is_valid (release, base product, tree, EVERY variant of "
+             "the variant tree under its parent, the container, checksum paths, image paths and platforms, stage2 and media of a "
+             "loaded .treeinfo passed the validators the writer runs). Tie: valid current-version documents of the five JSON "
              "formats and .treeinfo texts, each with one corruption (other header type, mangled version, deleted section or "
              "required key, one value outside its documented domain at any position) are loaded by the real library and by the "
              "model readers; accepted-vs-rejected is compared and, when accepted, the loaded object must be writable.",
-        note="Partial: 'load d = Ok x -> Valid x' is proved for images manifests and composeinfo; for treeinfo it is "
-             "decided by the load correspondence (rpms/modules/extra files have no per-entry validators). Reader coercions (bool(), int(), lower()) are part of the modelled reader (O10).",
+        note="'load d = Ok x -> Valid x' is proved for images manifests, composeinfo and treeinfo (format 0.3 and later; pre-productmd "
+             "treeinfo files are read by the heuristics of Model/TreeInfo00.v, tied by correspondence); rpms/modules/extra files "
+             "have no per-entry validators. Reader coercions (bool(), int(), lower()) are part of the modelled reader (O10).",
         design="DESIGN.md section 6 C07"),
     "C08": dict(
         text="Coq theorems about the JSON writer model: C08_json_same_content (two documents whose mappings have the same "
@@ -117,7 +120,8 @@ CHECKS = {
              "entries - insertion order, dict/set iteration order, hash seed - is the same content), C08_sort_canonical (key "
              "sorting of distinct keys is permutation-invariant; via commutation of insertions on a strict total order), "
              "C08_print_canon, C08_cell_order_irrelevant (an image cell's written list depends only on which images the set "
-             "holds: insertion sort by path is permutation-invariant for distinct paths). Tie: the same content is constructed in K interleavings and dumped twice in separate interpreter "
+             "holds: insertion sort by path is permutation-invariant for distinct paths), C08_composeinfo_variant_order_irrelevant (the whole "
+             "composeinfo document is the same whatever order the top-level variants were added in). Tie: the same content is constructed in K interleavings and dumped twice in separate interpreter "
              "processes under several PYTHONHASHSEED values for rpms, modules, extra files, images, composeinfo and treeinfo; all byte "
              "sequences must coincide with each other, and the model printers (print_json, print_ini) must reproduce them from "
              "the parsed tree of what was written (the per-format section writers belong to C01-C04 and are not part of this tie).",
